@@ -6,6 +6,7 @@ import (
 	"github.com/yuin/goldmark"
 	"github.com/yuin/goldmark/extension"
 	"github.com/yuin/goldmark/parser"
+	"github.com/yuin/goldmark/renderer"
 	"github.com/yuin/goldmark/renderer/html"
 	"github.com/yuin/goldmark/text"
 	"verifh/vp"
@@ -63,7 +64,7 @@ func NewMD(cfg string) goldmark.Markdown {
 			panic("unknown parser option " + o)
 		}
 	}
-	var ropts []html_option
+	var ropts []renderer.Option
 	for _, o := range splitN(parts[2], ',') {
 		switch o {
 		case "":
@@ -83,8 +84,6 @@ func NewMD(cfg string) goldmark.Markdown {
 	}
 	return goldmark.New(opts...)
 }
-
-type html_option = html.Option
 
 func splitN(s string, sep byte) []string {
 	var out []string
@@ -152,3 +151,5 @@ func H_c01_convert() {
 	vp.Assert(vp.EqBytes(buf.Bytes(), buf2.Bytes()), "Convert and Parse+Render differ")
 	vp.Reach("done")
 }
+
+func init() { reg("H_c01_convert", H_c01_convert) }
